@@ -248,7 +248,14 @@ def run(ctx):
             else:
                 times = base_t + off * u.s
                 tlist = [times]
-            inp = dict(inp0, op='predict', mode=mode, t=[str(x.mjd) for x in tlist])
+            scale = 'utc'
+            if rng.random() < 0.25:
+                # the same instants expressed in another time scale (37 s / 69.184 s away in their Julian dates)
+                scale = rng.choice(['tai', 'tt'])
+                times = getattr(times, scale)
+                tlist = list(times.reshape(-1)) if not times.isscalar else [times]
+            ctx.count('scale:' + scale)
+            inp = dict(inp0, op='predict', mode=mode, scale=scale, t=[str(x.mjd) for x in tlist])
             ctx.seen(inp); ctx.count('time:' + mode)
             ts = [X.sec(x) for x in tlist]
             inside_any = [any(i0 <= x - t0s <= i1 for i0, i1 in iv) for x in ts]
